@@ -77,12 +77,15 @@ def garbage(rng):
 
 
 def some_text(cls, rng, n):
-    """a text for the file whose stem is `cls`: the parent named in it always comes earlier in CLASSES,
-    so the inheritance graph of the workspace stays acyclic whatever is opened, changed or saved
-    (cycles hang the analysis: C14's subject; one cyclic workspace is in the corpus)"""
+    """a text for the file whose stem is `cls`: mostly the parent named in it comes earlier in CLASSES (acyclic
+    inheritance); one text in eight names ANY class — itself (any letter case), a later one, one that does not
+    exist — so that self-parents, cycles and dangling parents occur in workspaces, changes and saves (the server
+    must answer and terminate all the same: the start-up tree job and every analysis meet these shapes)"""
     k = rng.below(10)
     idx = CLASSES.index(cls) if cls in CLASSES else 0
     parent = rng.choice(CLASSES[:idx]) if idx > 0 and rng.chance(2, 3) else None
+    if rng.chance(1, 8):
+        parent = rng.choice(CLASSES + [cls, cls.upper(), cls.lower(), "aNowhere"])
     uses = [rng.choice(CLASSES)] if rng.chance(1, 3) else []
     t = good_text(cls, parent, uses, n, rng)
     if k < 5:
@@ -556,6 +559,16 @@ CORPUS = [
     {"files": {"aRoot.god": "class aRoot (aSecond)\n\nF1 : Int4\n", "aSecond.god": "class aSecond (aRoot)\n\nF2 : Int4\n"}, "dirs": [], "ghosts": [],
      "msgs": [{"k": "req", "id": 1, "method": "textDocument/definition", "target": "FaRoot.god", "line": 2, "ch": 1},
               {"k": "req", "id": 2, "method": "textDocument/documentSymbol", "target": "FaSecond.god"}]},
+    # a class that names itself as its parent (in another letter case), a two-cycle and a dangling parent in one workspace:
+    # the start-up tree job and the analyses must get through, and the session must end with status 0
+    {"files": {"aRoot.god": "class aRoot (AROOT)\n\nF1 : Int4\n", "aSecond.god": "class aSecond (aThird)\n\nF2 : Int4\n",
+               "aThird.god": "class aThird (aSecond)\n\nF3 : Int4\n", "aFourth.god": "class aFourth (aNowhere)\n\nF4 : Int4\n"},
+     "dirs": [], "ghosts": [],
+     "msgs": [{"k": "req", "id": 1, "method": "textDocument/diagnostic", "target": "FaRoot.god"},
+              {"k": "req", "id": 2, "method": "textDocument/definition", "target": "FaSecond.god", "line": 2, "ch": 1},
+              {"k": "req", "id": 3, "method": "textDocument/completion", "target": "FaFourth.god", "line": 2, "ch": 1},
+              {"k": "req", "id": 4, "method": "textDocument/prepareTypeHierarchy", "target": "FaRoot.god", "line": 0, "ch": 7},
+              {"k": "shutdown", "id": 5}, {"k": "exit"}]},
 ]
 
 
